@@ -427,7 +427,7 @@ def _one_call(case, ctx, F, c, ci, route, plan, tmp, ref_verdict, clauses, n,
             bad("verdict-without-solver",
                 "expected %s, got a result" % want.__name__)
         if not isinstance(res[1], want) or (
-                want is RuntimeError and not type(res[1]) is RuntimeError):
+                want is RuntimeError and not _is_runtime_error(res[1])):
             bad_exc("wrong-error-for-bad-request-expected-%s" %
                     want.__name__, res[1])
         if sp.solve_calls:
@@ -454,7 +454,7 @@ def _one_call(case, ctx, F, c, ci, route, plan, tmp, ref_verdict, clauses, n,
     if plan.get("exec_fails"):
         if res[0] == "ok":
             bad("verdict-without-solver", "exec failed but a verdict came")
-        if type(res[1]) is not RuntimeError:
+        if not _is_runtime_error(res[1]):
             bad_exc("failing-solver-not-RuntimeError", res[1])
         return None
 
@@ -497,7 +497,7 @@ def _one_call(case, ctx, F, c, ci, route, plan, tmp, ref_verdict, clauses, n,
     if not consistent:
         # user error: only "never a wrong verdict, no foreign exception"
         if res[0] == "exc":
-            if type(res[1]) is not RuntimeError:
+            if not _is_runtime_error(res[1]):
                 bad_exc("failing-solver-not-RuntimeError", res[1])
             return None
         _check_verdict_only(res, c, ref_verdict, bad)
@@ -510,12 +510,12 @@ def _one_call(case, ctx, F, c, ci, route, plan, tmp, ref_verdict, clauses, n,
         if res[0] == "ok":
             bad("verdict-from-failing-solver", "solver gave no answer (%s)"
                 % fkind)
-        if type(res[1]) is not RuntimeError:
+        if not _is_runtime_error(res[1]):
             bad_exc("failing-solver-not-RuntimeError", res[1])
         return None
     if fkind == "nonascii":
         if res[0] == "exc":
-            if type(res[1]) is not RuntimeError:
+            if not _is_runtime_error(res[1]):
                 bad_exc("failing-solver-not-RuntimeError", res[1])
             return None
         # fall through: a full correct answer is fine
@@ -528,7 +528,7 @@ def _one_call(case, ctx, F, c, ci, route, plan, tmp, ref_verdict, clauses, n,
         else:
             answered = _prefix_has_answer(prefix, conv)
             if res[0] == "exc":
-                if type(res[1]) is not RuntimeError:
+                if not _is_runtime_error(res[1]):
                     bad_exc("failing-solver-not-RuntimeError", res[1])
                 return None
             if not answered:
@@ -571,6 +571,13 @@ def _one_call(case, ctx, F, c, ci, route, plan, tmp, ref_verdict, clauses, n,
     if not cnfref.satisfies(clauses, A):
         bad("witness-does-not-satisfy", "%r" % (A,))
     return None
+
+
+def _is_runtime_error(e):
+    """The documented RuntimeError or a subclass made for the purpose (but
+    not the interpreter's own RecursionError / NotImplementedError)."""
+    return isinstance(e, RuntimeError) and not isinstance(
+        e, (RecursionError, NotImplementedError))
 
 
 def _check_verdict_only(res, c, ref_verdict, bad):
